@@ -420,7 +420,11 @@ func c11PaillierProofEq(c *ctx, rule string, fn *ssa.Function) {
 			wit = fmt.Sprintf("equality guard at %s depends on proof, pkN, k, ecdsaPub", c.p.Pos(e.pos))
 		}
 	}
-	c.r.Check(found, rule, fkey(rule, fn, "equation:y_i^N=x_i mod N"), c.fpos(fn), wit, "no rejecting equality guard depends on the proof elements, pkN and the derived challenges")
+	seenDeps := ""
+	for _, e := range eqs {
+		seenDeps += fmt.Sprintf(" %v", keys(core.DepsOf(fn, false, e.x, e.y)))
+	}
+	c.r.Check(found, rule, fkey(rule, fn, "equation:y_i^N=x_i mod N"), c.fpos(fn), wit, "no rejecting equality guard depends on the proof elements, pkN and the derived challenges; equality guards found depend on:"+seenDeps)
 	// trial division: a closure sends false when pkN mod prm == 0 for prm over primes.Until(verifyPrimesUntil)
 	td := false
 	for _, g := range core.WithClosures(fn) {
